@@ -17,7 +17,7 @@ def stream_event(kind, key, nonce, rounds, m, ctr0=0, op='enc', prehash=None):
         if prehash is not None:                       # the bare hash function called on the KEYED object first: it must not disturb the key block
             try: o.hash(prehash)
             except Exception: pass
-        r = getattr(o, op)(Bits(nonce, bitorder=1), m); e['obs'] = B(r) if isinstance(r, (bytes, bytearray)) else [-1]
+        r = getattr(o, op)(Bits(nonce, bitorder=1), m); e['obs'] = B(r) if isinstance(r, bytes) else [-1]
     except Exception as ex: e['raised'] = type(ex).__name__
     return e
 
@@ -33,7 +33,7 @@ def stream_history(kind, key, rounds, rb):
     def call(vobj, nonce_bytes, m, op='enc'):
         e = dict(op=kind, key=B(key), nonce=B(nonce_bytes), rounds=rounds, ctr0=limbs(0, 4), m=B(m), raised='', obs=[], dir=op)
         try:
-            r = getattr(o, op)(vobj, m); e['obs'] = B(r) if isinstance(r, (bytes, bytearray)) else [-1]
+            r = getattr(o, op)(vobj, m); e['obs'] = B(r) if isinstance(r, bytes) else [-1]
         except Exception as ex: e['raised'] = type(ex).__name__
         out.append(e)
     n1, n2, n3 = rb(8), rb(8), (5).to_bytes(8, 'little')
@@ -98,7 +98,7 @@ def run(ctx):
         for j, p in enumerate(pieces):
             e = dict(op='rc4_xor', m=B(p), raised='', obs=[])
             try:
-                r = o.enc(p) if j % 2 == 0 else o.dec(p); e['obs'] = B(r) if isinstance(r, (bytes, bytearray)) else [-1]
+                r = o.enc(p) if j % 2 == 0 else o.dec(p); e['obs'] = B(r) if isinstance(r, bytes) else [-1]
             except Exception as ex: e['raised'] = type(ex).__name__
             t.append(e)
         return dict(ev=t)
